@@ -14,6 +14,7 @@ A call that exceeds its CPU limit is journalled `timeout` and is inconclusive (D
 import collections, concurrent.futures as cf, glob, hashlib, os, re, time
 
 from .common import VERIF
+from . import c06_bb
 
 LEVEL = "proof"
 CORPUS = os.path.join(VERIF, "corpus", "C06")
@@ -337,11 +338,13 @@ def replay(ctx, path):
     """bin/check C06 --replay replays/C06-….json : re-execute the recorded operation list on the real
     library of the current tree and re-judge it with the driver; 1 = the property is still violated."""
     import json
+    obj = json.load(open(path))
+    if obj.get("stage") == "c06_bb":          # stage 3 replay files (branch-and-bound tree)
+        return c06_bb.replay(ctx, path)
     ctx.ensure_ppl()
     drv = ctx.ensure_pplv("pplv_mip")
     h = ctx.compile_harness("c06_mip.cc")
     R = Replayer(ctx, h, drv, ctx.workdir())
-    obj = json.load(open(path))
     ops = obj.get("ops") or ops_of(obj.get("history", []))
     print("property=C06 what=%s" % str(obj.get("what", "-"))[:300])
     lines, verd = R.run(ops)
@@ -456,6 +459,8 @@ def run(ctx):
                     if len(samples) < 2:
                         samples.append(hist[:16])
             examine(ctx, hist, lambda i, b=base, v=verd: v.get(b + i), "seed %d" % ctx.seed, stats, seen_sites, R)
+
+    broken += c06_bb.run(ctx)          # stage 3: branch-and-bound recursion (proof + node-for-node correspondence)
 
     for b in broken:
         ctx.violation("proof obligation of C06 does not check: " + b,
